@@ -434,13 +434,22 @@ class Ctx:
             o["log"].append(tuple(mval(m, x) if not isinstance(x, int) else x for x in e))
         return o
 
+    def _same_value(self, mv, nv):
+        """equal, or both are application-object addresses (whose numeric value differs between the engine's
+        address space and the native process: layout-dependent, not comparable bit for bit)"""
+        mv &= 0xFFFFFFFFFFFFFFFF
+        nv &= 0xFFFFFFFFFFFFFFFF
+        if mv == nv:
+            return True
+        return self.eng.classify(mv) != "other" and 0x550000000000 <= nv < 0x800000000000
+
     def outcomes_agree(self, mo, no):
         if mo["status"] == "ret":
             if no["status"] != "ret":
                 return False
             if mo["ret"] is not None:
                 mask = (1 << mo["retbits"]) - 1
-                if (no["ret"] & mask) != (mo["ret"] & mask):
+                if (no["ret"] & mask) != (mo["ret"] & mask) and not (mo["retbits"] == 64 and self._same_value(mo["ret"], no["ret"])):
                     return False
         elif mo["status"] == "abort":
             if no["status"] != "abort":
@@ -448,9 +457,13 @@ class Ctx:
         else:
             # ub / alloc-fail / uncaught: native shows a signal or anything but a clean pass
             return True
-        ml = [tuple(x & 0xFFFFFFFFFFFFFFFF for x in e) for e in mo["log"]]
-        if self.job.compare_logs and ml != [tuple(e) for e in no["log"]][:len(ml)]:
-            return False
+        if self.job.compare_logs:
+            nl = no["log"]
+            if len(nl) < len(mo["log"]):
+                return False
+            for me, ne in zip(mo["log"], nl):
+                if len(me) != len(ne) or not all(self._same_value(a, b) for a, b in zip(me, ne)):
+                    return False
         return True
 
     def _counterexample(self, p, m, what):
